@@ -219,7 +219,12 @@ func RunC17(e *core.Env) int {
 			}
 		}
 	}
-	runBroadBatches(e, rep, "select", n, 250, func(c *CaseResult) {
+	// a third of the files are reached through a symbolic link to the module root (as an absolute path
+	// from outside, or as the working directory): which interfaces belong to "the input file" must not
+	// depend on how its path is spelled
+	via := func(i int) string { return []string{"", "symlink-abs", "", "", "symlink-cwd", ""}[i%6] }
+	runBroadBatchesVia(e, rep, "select", n, 250, via, func(c *CaseResult) {
+		rep.Histo("input_reached_via", map[bool]string{true: "plain", false: c.Via}[c.Via == ""])
 		judgeC17(rep, c)
 		if c.Run.Exit == 0 && len(c.S.Ifaces) > len(c.S.Converters()) {
 			rep.Sample(map[string]any{"case": c.S.ID, "setup": core.Trunc(c.S.Files[c.S.Setup], 1500), "generated": ExpectedFuncKeys(c.S)}, 2)
